@@ -324,3 +324,137 @@ def run(repo: Repo, rep: Report) -> None:  # noqa: F811
              "every memo of a serializer class (prefix rewrite tables, done-sets filled on a miss) is keyed by every re-bindable instance attribute its value is computed "
              "from (the store / graph being written, the base), or re-binding that attribute invalidates the memo", floor=4)
     memo.scan(repo, rep, "C03.f-serializer-memos-key-complete", sorted(m for m in repo.modules if m.startswith("rdflib.plugins.serializers.")))
+
+    # (g) JSON-LD: every subject is written
+    rep.rule("C03.g-jsonld-every-subject-written",
+             "JSON-LD serializer, Converter.from_graph: node objects are created by process_subject, which is reached from the top-level loop(s) over graph.subjects() and, "
+             "for blank nodes, from a node that references them. A blank node whose every referrer is itself only reachable that way (a cycle, or a node referenced "
+             "through a compact @id value) is reached from nowhere, so some loop over the subjects must call process_subject for blank nodes under a condition that "
+             "does not ask whether the node is referenced (only: it is a BNode, it was not folded into a @list, it is not a list cell)", floor=2)
+    jm = repo.mod("rdflib.plugins.serializers.jsonld")
+    fg = jm.func("Converter.from_graph")
+    calls = [c for c in own_nodes(fg) if isinstance(c, ast.Call) and norm(c.func) == "self.process_subject"]
+    if not calls:
+        raise AnalysisError("Converter.from_graph no longer calls process_subject")
+    unconditional = []
+    for c in calls:
+        conds = []
+        child = c
+        for p_ in jm.parents(c):
+            if isinstance(p_, ast.If) and any(child is x or any(child is y for y in ast.walk(x)) for x in p_.body):
+                conds.append(p_.test)
+            if p_ is fg:
+                break
+            child = p_
+        asks_referenced = any(isinstance(n, ast.Call) and isinstance(n.func, ast.Attribute) and n.func.attr in ("subjects", "subject_predicates", "triples") for t in conds for n in ast.walk(t))
+        rep.ob("C03.g-jsonld-every-subject-written", jm, "Converter.from_graph", "%s under [%s]" % (norm(c), "; ".join(norm(t)[:70] for t in conds) or "no condition"), True,
+               "asks whether the node is referenced (ordering heuristic)" if asks_referenced else "does not depend on the node being referenced", node=c)
+        if not asks_referenced:
+            unconditional.append(c)
+    rep.ob("C03.g-jsonld-every-subject-written", jm, "Converter.from_graph", "a pass over the subjects that does not depend on being referenced", bool(unconditional),
+           "every blank-node subject is visited" if unconditional else
+           "every process_subject call in from_graph is guarded by a referenced-ness test: blank nodes that reference only each other (`_:a p _:b . _:b p _:a`) - or that are referenced "
+           "through a term coerced to @id - are never written; their triples are silently missing from the output", node=fg)
+
+    # (h) JSON-LD: only cells with a single referrer are folded into @list
+    rep.rule("C03.h-jsonld-folded-list-cells-have-one-referrer",
+             "JSON-LD serializer, Converter.to_collection: the rdf:rest walk that turns a chain of cells into a @list value gives up (returns None) for a cell that is "
+             "referenced from more than one place - a shared list, a shared tail - because a @list value has no identity: written twice it is read back as two lists", floor=1)
+    tc = jm.func("Converter.to_collection")
+    loops_ = [n for n in own_nodes(tc) if isinstance(n, ast.While)]
+    if not loops_:
+        raise AnalysisError("Converter.to_collection: rdf:rest walk not found")
+    cur = norm(loops_[0].test)
+    hit = None
+    for n in ast.walk(loops_[0]):
+        if isinstance(n, ast.If) and any(isinstance(r, ast.Return) and isinstance(r.value, ast.Constant) and r.value.value is None for r in n.body):
+            for c in ast.walk(n.test):
+                if isinstance(c, ast.Call) and isinstance(c.func, ast.Attribute) and c.func.attr in ("subject_predicates", "subjects", "triples") and any(cur in norm(a) for a in c.args):
+                    hit = n
+    rep.ob("C03.h-jsonld-folded-list-cells-have-one-referrer", jm, "Converter.to_collection", hit.test if hit is not None else "referrer count of %s tested in the walk" % cur, hit is not None,
+           "shared cells are not folded" if hit is not None else
+           "no cell of the chain is checked for other referrers: `s p _:l ; q _:l . _:l = (1 2)` is written as two @list values and read back as two different lists (extra triples, not isomorphic)", node=hit or tc)
+
+    # (i) Turtle family: what is written as ( ... ) is a well-formed, unshared list of blank cells
+    rep.rule("C03.i-turtle-collection-validator",
+             "TurtleSerializer / LongTurtleSerializer.isValidList decide whether a node is written as ( ... ), which records only the rdf:first values of the chain: for every cell "
+             "of the walk they require (1) a blank node - an IRI-named cell has an identity the abbreviation cannot express, (2) no second referrer (self._references of a cell "
+             "after the head) - a shared tail would lose its identity, (3) exactly the properties rdf:first and rdf:rest, by name - a bare property count accepts a cell with "
+             "rdf:first plus some other property and drops that property", floor=6)
+    for modname, cname in (("rdflib.plugins.serializers.turtle", "TurtleSerializer"), ("rdflib.plugins.serializers.longturtle", "LongTurtleSerializer")):
+        mod = repo.mod(modname)
+        f = mod.func(cname + ".isValidList")
+        wl = [n for n in own_nodes(f) if isinstance(n, ast.While)]
+        if not wl:
+            raise AnalysisError("%s.isValidList: walk not found" % cname)
+        loop = wl[0]
+        cur = None
+        for n in ast.walk(loop):
+            if isinstance(n, ast.Assign) and isinstance(n.targets[0], ast.Name) and "RDF.rest" in norm(n.value):
+                cur = n.targets[0].id
+        if cur is None:
+            raise AnalysisError("%s.isValidList: cursor not found" % cname)
+        rejects = [n for n in ast.walk(loop) if isinstance(n, ast.If) and any(isinstance(r, ast.Return) and isinstance(r.value, ast.Constant) and r.value.value is False for r in n.body)]
+        tests = [t for n in rejects for t in [n.test]]
+        txt = [norm(t) for t in tests]
+        c1 = any("isinstance(%s, BNode)" % cur in t for t in txt)
+        c2 = any("_references[%s]" % cur in t for t in txt)
+        c3 = any("RDF.first" in t and "RDF.rest" in t for t in txt)
+        for ok, what, why in ((c1, "cells must be blank nodes", "an IRI-named cell inside the chain is written as an anonymous member of ( ... ): the IRI and its link are lost"),
+                              (c2, "cells after the head have no second referrer", "a list tail that is also referenced from elsewhere (`:t :tail _:c2`) is folded into ( ... ); the other reference dangles"),
+                              (c3, "a cell has exactly rdf:first and rdf:rest (by name)", "a cell with rdf:first and one other property passes a bare count of 2: it is written as ( x ) and the other property is dropped")):
+            rep.ob("C03.i-turtle-collection-validator", mod, cname + ".isValidList", what, ok, "rejected by a test in the walk" if ok else why, node=loop)
+
+    # (j) RDF/XML pretty: parseType="Collection" only for lists it can express
+    rep.rule("C03.j-prettyxml-collection-validator",
+             "PrettyXMLSerializer.predicate writes parseType=\"Collection\" (which records only the members, as node elements) only under the result of a validator method whose "
+             "walk rejects a chain unless every cell is a blank node, has no other referrer, has exactly rdf:first and rdf:rest, and its member is not a literal (a literal cannot "
+             "be a node element); and it marks every cell of the chain as written, not only the head (otherwise the inner cells are emitted a second time)", floor=5)
+    rx = repo.mod("rdflib.plugins.serializers.rdfxml")
+    pf = rx.func("PrettyXMLSerializer.predicate")
+    attrs = [c for c in own_nodes(pf) if isinstance(c, ast.Call) and norm(c.func).endswith(".attribute") and len(c.args) == 2 and isinstance(c.args[1], ast.Constant) and c.args[1].value == "Collection"]
+    if not attrs:
+        rep.ob("C03.j-prettyxml-collection-validator", rx, "PrettyXMLSerializer.predicate", "parseType=Collection is not used", True, "no abbreviation, nothing to validate", node=pf)
+    for c in attrs:
+        guard = None
+        child = c
+        for p_ in rx.parents(c):
+            if isinstance(p_, ast.If) and any(child is x or any(child is y for y in ast.walk(x)) for x in p_.body):
+                guard = p_
+                break
+            if p_ is pf:
+                break
+            child = p_
+        validator = None
+        if guard is not None:
+            names = {n.id for n in ast.walk(guard.test) if isinstance(n, ast.Name)}
+            for a in own_nodes(pf):
+                if isinstance(a, ast.Assign) and isinstance(a.targets[0], ast.Name) and a.targets[0].id in names and isinstance(a.value, ast.Call) \
+                        and isinstance(a.value.func, ast.Attribute) and norm(a.value.func.value) == "self":
+                    mname = a.value.func.attr
+                    for q, f in rx.functions():
+                        if q.startswith("PrettyXMLSerializer.") and (q.endswith("." + mname) or q.endswith("." + mname.split("__")[-1]) or q.split(".")[-1].lstrip("_") == mname.lstrip("_").replace("PrettyXMLSerializer__", "")):
+                            validator = (q, f, a.targets[0].id)
+        if validator is None:
+            rep.ob("C03.j-prettyxml-collection-validator", rx, "PrettyXMLSerializer.predicate", c, False,
+                   "parseType=\"Collection\" is chosen without a validator of the chain (only the existence of an rdf:first is tested): a literal member is written as <rdf:Description rdf:about=\"1\"/> (an IRI), "
+                   "cells with other properties or other referrers lose them, and the inner cells of the chain are written a second time as top-level nodes", node=c)
+            continue
+        q, f, var = validator
+        wl = [n for n in own_nodes(f) if isinstance(n, ast.While)]
+        txt = []
+        if wl:
+            for n in ast.walk(wl[0]):
+                if isinstance(n, ast.If) and any(isinstance(r, ast.Return) and isinstance(r.value, ast.Constant) and r.value.value is None for r in n.body):
+                    txt.append(norm(n.test))
+        conds = (
+            (any("isinstance(" in t and "BNode" in t for t in txt), "cells must be blank nodes", "an IRI-named cell loses its identity"),
+            (any("triples((None, None," in t or "subjects(" in t or "subject_predicates(" in t for t in txt), "cells have no other referrer", "a shared list or tail is copied"),
+            (any("RDF.first" in t and "RDF.rest" in t for t in txt), "a cell has exactly rdf:first and rdf:rest", "other assertions on a cell are dropped"),
+            (any("Literal" in t for t in txt), "members are not literals", "a literal member is written as a node element with rdf:about=<its text>, i.e. as an IRI"),
+        )
+        for ok, what, why in conds:
+            rep.ob("C03.j-prettyxml-collection-validator", rx, q, what, ok, "rejected by the validator" if ok else why, node=f)
+        marks_all = any(isinstance(l, (ast.For,)) and var in norm(l.iter) and any(isinstance(a, ast.Assign) and "__serialized[" in norm(a.targets[0]) and norm(l.target) in norm(a.targets[0]) for a in ast.walk(l)) for l in ast.walk(guard))
+        rep.ob("C03.j-prettyxml-collection-validator", rx, "PrettyXMLSerializer.predicate", "every cell of the chain is marked written", marks_all,
+               "" if marks_all else "only the head cell is marked: the remaining cells are written again as top-level descriptions (extra triples after parsing)", node=guard)
